@@ -106,6 +106,7 @@ func runC10(c *Check, tier string) {
 	ruleR10b(c, li, "R10b", true)
 	ruleR10c(c, li)
 	ruleR10d(c, li)
+	ruleR10e(c, li)
 }
 
 func ruleR10a(c *Check, li *lockerInfo) {
@@ -547,4 +548,42 @@ func ruleR10d(c *Check, li *lockerInfo) {
 	}
 	sort.Strings(others)
 	c.Require(len(rms) == 1 && len(others) == 0, "R10d", "unlock-removes-lock-path/"+c.P.FuncName(li.Unlock), "Unlock removes the lock path", "Unlock does not remove exactly the lock path", c.P.Pos(li.Unlock.Pos()))
+}
+
+// R10e: one lock per workspace. Mutual exclusion is between processes that open the same path; the path must
+// therefore be a function of the workspace's identity (the grog root and the workspace root) and of nothing
+// that can differ between two builds of the same workspace (platform, flags, environment, time, process).
+func ruleR10e(c *Check, li *lockerInfo) {
+	c.Rule("R10e", "the lock file path derives (value-flow graph, backward from the locker's path field) from no field of the workspace configuration other than the grog root and the workspace root, and from no process-, time- or environment-dependent call", 1)
+	allowed := map[engine.FieldKey]bool{fk("config.WorkspaceConfig", "Root"): true, fk("config.WorkspaceConfig", "WorkspaceRoot"): true}
+	back := c.G.Backward([]Node{li.PathField}, func(e *engine.Edge) bool {
+		if e.Kind == engine.EField {
+			return false
+		}
+		if k, ok := e.To.(engine.FieldKey); ok && allowed[k] {
+			return false // where the two roots come from is the workspace's identity
+		}
+		return true
+	})
+	var bad []string
+	for n := range back.Parent {
+		switch x := n.(type) {
+		case engine.FieldKey:
+			if x.T == "config.WorkspaceConfig" && !allowed[x] {
+				bad = append(bad, "config field "+x.F)
+			}
+		case ssa.Value:
+			if call, _ := engine.CallOf(x); call != nil {
+				switch engine.CalleeName(call) {
+				case "os.Getenv", "os.LookupEnv", "os.Getpid", "os.Hostname", "time.Now", "os.Getwd", "os.Executable":
+					bad = append(bad, engine.CalleeName(call))
+				}
+			}
+			if g, ok := x.(*ssa.Global); ok && g.Pkg != nil && g.Pkg.Pkg.Path() == "runtime" {
+				bad = append(bad, "runtime."+g.Name())
+			}
+		}
+	}
+	sort.Strings(bad)
+	c.Require(len(bad) == 0, "R10e", "lock-path-is-workspace-identity/"+li.PathField.String(), "the lock path depends only on the grog root and the workspace root", "the lock path also depends on "+strings.Join(bad, ", ")+": two builds of the same workspace that differ in it (a native and a --platform build, say) lock different files and run at the same time", c.P.Pos(li.Lock.Pos()))
 }
